@@ -4,7 +4,7 @@
    originals are the ids below n and the clones the ids from n on.) *)
 From Coq Require Import List Bool Arith PeanoNat Lia.
 From MV Require Import Model.ForestModel Model.ForestExec Proofs.ForestInv Proofs.ForestBase
-  Proofs.ForestOps Proofs.ForestRm Proofs.ForestStep2.
+  Proofs.ForestOps Proofs.ForestRm Proofs.ForestStep Proofs.ForestStep2 Proofs.ForestCopy.
 Import ListNotations.
 
 Lemma flat_map_ext_in' {A B} (f g : A -> list B) l :
@@ -15,31 +15,43 @@ Proof.
 Qed.
 
 Section Frame.
-Variable n : nat.
+Variable side : nat -> bool.      (* an arbitrary partition of the object ids *)
 Variable b : bool.
-Definition side (x : nat) : bool := Nat.ltb x n.
 
 (* no link crosses the partition *)
 Definition Closed (s : state) : Prop :=
   (forall p x, In x (chl s p) -> side x = side p) /\
   (forall x p, par s x = Some p -> side p = side x).
 
-(* s' differs from s only on objects of side b; kinds and size are kept; s' is closed *)
-Record FR (s s' : state) : Prop := mkFR {
-  fr_len : length s' = length s;
-  fr_kd : forall i, kd s' i = kd s i;
+(* s' has g more objects than s, all of them on side b; it differs from s only on objects of side
+   b; the kinds of the old objects are kept; s' is closed *)
+Record FRg (g : nat) (s s' : state) : Prop := mkFR {
+  fr_len : length s' = length s + g;
+  fr_kd : forall i, i < length s -> kd s' i = kd s i;
+  fr_new : forall i, length s <= i -> i < length s + g -> side i = b;
   fr_off : forall i, side i <> b -> get s' i = get s i;
   fr_closed : Closed s' }.
+Notation FR := (FRg 0).
 
 Lemma FR_refl s : Closed s -> FR s s.
-Proof. intros H. split; auto. Qed.
+Proof. intros H. split; auto. intros; lia. Qed.
+
+Lemma FRg_trans g1 g2 s s1 s2 : FRg g1 s s1 -> FRg g2 s1 s2 -> FRg (g1 + g2) s s2.
+Proof.
+  intros [A1 A2 A3 A4 A5] [B1 B2 B3 B4 B5]. split; auto.
+  - lia.
+  - intros i Hi. rewrite B2 by lia. apply A2. exact Hi.
+  - intros i H1 H2. destruct (Nat.lt_ge_cases i (length s + g1)); [apply A3 | apply B3]; lia.
+  - intros i Hi. rewrite B4 by exact Hi. apply A4. exact Hi.
+Qed.
 
 Lemma FR_trans s s1 s2 : FR s s1 -> FR s1 s2 -> FR s s2.
+Proof. intros A B. apply (FRg_trans 0 0 s s1 s2 A B). Qed.
+
+Lemma FR0_kd s s' : FR s s' -> forall i, kd s' i = kd s i.
 Proof.
-  intros [A1 A2 A3 A4] [B1 B2 B3 B4]. split; auto.
-  - congruence.
-  - intros i. rewrite B2. apply A2.
-  - intros i Hi. rewrite B3 by exact Hi. apply A3. exact Hi.
+  intros [A1 A2 _ _ _] i. destruct (Nat.lt_ge_cases i (length s)); auto.
+  unfold kd. rewrite !get_oob by lia. reflexivity.
 Qed.
 
 Lemma get_upd_other s x f i : i <> x -> get (upd s x f) i = get s i.
@@ -49,8 +61,9 @@ Lemma FR_set_parent s x p : Closed s -> side x = b ->
   (forall c, p = Some c -> side c = b) -> FR s (set_parent s x p).
 Proof.
   intros [C1 C2] Hx Hp. split.
-  - apply sp_length.
-  - intros i. apply sp_kd.
+  - rewrite sp_length. lia.
+  - intros i _. apply sp_kd.
+  - intros; lia.
   - intros i Hi. unfold set_parent. apply get_upd_other. intros ->. contradiction.
   - split.
     + intros q y Hy. rewrite sp_chl in Hy. auto.
@@ -63,8 +76,9 @@ Lemma FR_setch s c l : Closed s -> side c = b -> (forall y, In y l -> side y = b
   FR s (setch s c l).
 Proof.
   intros [C1 C2] Hc Hl. split.
-  - apply setch_length.
-  - intros i. apply setch_kd.
+  - rewrite setch_length. lia.
+  - intros i _. apply setch_kd.
+  - intros; lia.
   - intros i Hi. unfold setch, refresh, set_children. rewrite !get_upd_other; auto; intros ->; contradiction.
   - split.
     + intros q y Hy. rewrite setch_chl in Hy. destruct (Nat.eqb q c && Nat.ltb c (length s)) eqn:E; auto.
@@ -158,7 +172,7 @@ Proof.
   destruct (add_mutate repaired s c objs) as [s1 r]. simpl in F1. destruct r; simpl; auto.
   eapply FR_trans; [exact F1|]. apply FR_setch; auto; [apply F1|].
   intros y Hy. apply in_app_or in Hy. destruct Hy as [Hy|Hy]; auto.
-  destruct (fr_closed _ _ F1) as [C1 _]. rewrite (C1 c y Hy). exact Hc.
+  destruct (fr_closed _ _ _ F1) as [C1 _]. rewrite (C1 c y Hy). exact Hc.
 Qed.
 
 (* ---------------------------------------------------------------- setters *)
@@ -216,8 +230,8 @@ Proof.
   { intros kk. unfold format_typed. destruct (existsb (is_junk s1) objs); auto.
     intros o Ho. apply in_flat_map in Ho. destruct Ho as (a & Ha & Ho).
     destruct (is_coll s1 a).
-    - apply (flat_side s1 (is_k kk s1) (fr_closed _ _ F2) (fuel_of s1) (chl s1 a)); auto.
-      intros y Hy. destruct (fr_closed _ _ F2) as [C1 _]. rewrite (C1 a y Hy). auto.
+    - apply (flat_side s1 (is_k kk s1) (fr_closed _ _ _ F2) (fuel_of s1) (chl s1 a)); auto.
+      intros y Hy. destruct (fr_closed _ _ _ F2) as [C1 _]. rewrite (C1 a y Hy). auto.
     - destruct (is_k kk s1 a); [|contradiction]. destruct Ho as [<-|[]]. auto. }
   destruct k.
   - pose proof (HF KSource) as H. destruct (format_typed s1 KSource objs); simpl; auto.
@@ -261,6 +275,91 @@ Proof.
   - destruct Ho. destruct (is_coll s c); [apply FR_set_children_op; auto | apply FR_refl; auto].
   - destruct Ho. destruct k; try (apply FR_refl; exact HC);
       (destruct (is_coll s c); [apply FR_set_typed_op; auto | apply FR_refl; auto]).
+Qed.
+
+
+(* ---------------------------------------------------------------- operations that create objects *)
+Lemma FRg_new s k : Closed s -> side (length s) = b -> FRg 1 s (s ++ [new_obj k]).
+Proof.
+  intros [C1 C2] Hs. split.
+  - rewrite app_length. simpl. lia.
+  - intros i Hi. apply kd_new_lt. exact Hi.
+  - intros i H1 H2. replace i with (length s) by lia. exact Hs.
+  - intros i Hi. rewrite get_app_cases. destruct (Nat.ltb_spec i (length s)); auto.
+    destruct (Nat.eqb_spec i (length s)); [subst; contradiction|]. rewrite get_oob; auto.
+  - split.
+    + intros p x Hx. destruct (get_new_fields s k p) as (_ & E & _). rewrite E in Hx. auto.
+    + intros x p Hp. destruct (get_new_fields s k x) as (E & _). rewrite E in Hp. auto.
+Qed.
+
+Lemma FRg_ctor s objs ov : Closed s -> side (length s) = b -> (forall o, In o objs -> side o = b) ->
+  FRg 1 s (fst (ctor repaired s objs ov)).
+Proof.
+  intros HC Hs Hl. unfold ctor. pose proof (FRg_new s KColl HC Hs) as F1.
+  apply (FRg_trans 1 0 s (s ++ [new_obj KColl])); auto.
+  apply FR_add; auto. apply F1.
+Qed.
+
+Lemma FRg_copy s x : Inv s -> live s x = true -> Closed s ->
+  (forall i, length s <= i -> side i = b) -> FRg (length s) s (copy_op s x).
+Proof.
+  intros HI Hx [C1 C2] Hnew. split.
+  - apply copy_length.
+  - intros i Hi. apply kd_t_old. exact Hi.
+  - intros i H1 _. apply Hnew. exact H1.
+  - intros i Hi. apply get_copy_old. destruct (Nat.lt_ge_cases i (length s)); auto.
+    exfalso. apply Hi. apply Hnew. auto.
+  - split.
+    + intros q y Hy. destruct (t_cases s x q) as [(L & E)|[(p & -> & Sp)|E]].
+      * rewrite E in Hy. auto.
+      * rewrite (t_clone s x HI Hx p Sp) in Hy. simpl in Hy.
+        apply In_shift in Hy. destruct Hy as (o & -> & _). rewrite !Hnew by lia. reflexivity.
+      * rewrite E in Hy. contradiction.
+    + intros y q Hq. destruct (t_cases s x y) as [(L & E)|[(o & -> & So)|E]].
+      * rewrite E in Hq. auto.
+      * rewrite (t_clone s x HI Hx o So) in Hq. simpl in Hq.
+        destruct (Nat.eqb o x); [discriminate|].
+        destruct (par s o) as [p|]; [|discriminate]. simpl in Hq. inversion Hq.
+        rewrite !Hnew by lia. reflexivity.
+      * rewrite E in Hq. discriminate.
+Qed.
+
+Lemma FRg_newobj s k : Closed s -> side (length s) = b ->
+  FRg 1 s (fst (step repaired s (NewObj k))).
+Proof.
+  intros HC Hs. destruct k; try (simpl; apply FRg_new; assumption).
+  change (fst (step repaired s (NewObj KColl))) with (fst (ctor repaired s [] false)).
+  apply FRg_ctor; auto. intros o [].
+Qed.
+
+(* every object the operation mentions lies on side b (creating operations included) *)
+Definition op_on_all (o : op) : Prop :=
+  match o with
+  | NewObj _ => True
+  | Ctor objs _ => forall y, In y objs -> side y = b
+  | Plus a b0 => side a = b /\ side b0 = b
+  | Copy x => side x = b
+  | _ => op_on o
+  end.
+
+(* the general footprint theorem: objects created by the operation belong to side b *)
+Theorem step_frame_all s o : Inv s -> Closed s -> (forall i, length s <= i -> side i = b) ->
+  op_on_all o -> exists g, FRg g s (fst (step repaired s o)).
+Proof.
+  intros HI HC Hnew Ho.
+  assert (Hs : side (length s) = b) by (apply Hnew; lia).
+  destruct o as [k|c objs ov|c objs r e|x p|c objs|k c objs|a b0|objs ov|x]; simpl in Ho;
+    try (exists 0; apply step_frame; assumption).
+  - exists 1. destruct k; try (simpl; apply FRg_new; assumption).
+    change (fst (step repaired s (NewObj KColl))) with (fst (ctor repaired s [] false)).
+    apply FRg_ctor; auto. intros o [].
+  - simpl. destruct Ho as [Ha Hb]. destruct (live s a).
+    + exists 1. apply FRg_ctor; auto. intros o [<-|[<-|[]]]; auto.
+    + exists 0. apply FR_refl. exact HC.
+  - simpl. exists 1. apply FRg_ctor; auto.
+  - simpl. destruct (live s x) eqn:Lx.
+    + exists (length s). simpl. apply FRg_copy; auto.
+    + exists 0. apply FR_refl. exact HC.
 Qed.
 
 (* the derived views of an untouched object *)
